@@ -82,5 +82,24 @@ EXTRA = {
  'C19': ' Lattice data and data with exact zeros; second call on the same arrays with the other generator form / weighting; output_freq, max_rank, several thresholds.',
  'C20': ' Call sequences on one live state with single-qubit gates applied in place between samplings.',
 }
+EXTRA2 = {'C01': ' Exactly-zero / unit / all-ones / {-1,0,1} tensors are included (structured data).',
+ 'C02': ' tensordot: number of axes from every NumPy integer type, a train contracted with itself, open boundary ranks; squeeze on blocks with open boundary ranks.',
+ 'C03': ' Extreme-scale cores (squares outside the normal floating-point range), nearly canonical operand histories.',
+ 'C04': ' Trains with shared core objects (product states, identical end caps, Fortran order) in the truncation workload.',
+ 'C05': ' Unbalanced trains (one mode with 300-3000 points; generic / rank-deficient / graded big core); nearly canonical histories.',
+ 'C06': ' Constructors (eye / zeros / ones / unit / uniform) are producers in the pool histories; a constructor result must be a new object sharing no core with any live object.',
+ 'C07': ' Exactly representable problems (identity / power-of-two diagonal operators, unit-vector / GHZ right-hand sides: exact ties at every rank cut) and graded solutions (correction of relative size 1e-6.5..1e-3.5).',
+ 'C08': ' Generalised problems whose two operators have different dtypes, every micro solver in turn; eigs refusals are ARPACK / LinAlg errors only and decided eigs runs are a required counter.',
+ 'C09': ' Graded step lists (consecutive steps differing by 1e-7..1e-2.5 relative).',
+ 'C10': ' Nearly homogeneous site-dependent component lists (weak disorder / impurity of relative size 1e-7..1e-5).',
+ 'C11': ' (Nearly) uncoupled operators, weakly entangled maximal-rank states, the same evolution in other units (H scaled, step size scaled inversely), runs of more than 1000 steps.',
+ 'C12': ' Rates in other units (1e-16..1e12), slow single bonds, entry-wise relative accuracy of off-diagonal entries; unsigned and narrow integer state numbers.',
+ 'C13': ' qft / iqft of up to 12 qubits in random order first in every fresh process (TT-action oracle beyond 8 qubits); related constructors called one after the other with results changed in place in between; primaries of independent dtypes, one object for several primaries.',
+ 'C14': ' Parameters as NumPy scalars (np.float64 / np.int64 ...).',
+ 'C15': " Type-switching scalar functions, point-only user functions, boolean-valued modes, shared function objects; a HOCUR result with ranks below the true ranks is skipped only if the library's own column search (hooked) shows the sampled columns were deficient.", 'C16': ' Negligible cut-offs incl. rcond = 0 exactly (decided where every micro problem has full column rank).',
+ 'C17': ' Tall grids (300-2600 points), trains whose cores have different dtypes, strongly damped modes (eigenvalue ratio 1e-11..1e-8.5).',
+ 'C18': ' Boolean-mask and narrow-integer index sets, (nearly) reversible data.',
+ 'C19': ' Function objects shared between modes, 1025-6500 snapshots, poorly conditioned bases (condition numbers up to 1e9).',
+ 'C20': ' Textbook matrix-product states (GHZ copy tensors with single-qubit gates), registers of up to 72 qubits decided by a transfer-matrix oracle.'}
 for _k in TABLE:
-    TABLE[_k]['text'] = TABLE[_k]['text'] + EXTRA.get(_k, '') + COMMON
+    TABLE[_k]['text'] = TABLE[_k]['text'] + EXTRA.get(_k, '') + EXTRA2.get(_k, '') + COMMON
